@@ -776,6 +776,8 @@ func c08DeriveInner(t reflect.Type, tag string) *c08Desc {
 			return &c08Desc{K: "sum", Alts: []c08Alt{{16, 0xcca5, body}}}
 		case n == "AccountStatus":
 			return &c08Desc{K: "u", W: 2}
+		case n == "AddressWithWorkchain": // a 32-bit workchain (kept as int8) and 256 bits
+			return &c08Desc{K: "struct", Sub: []*c08Desc{{K: "i", W: 32}, {K: "bits", W: 256}}}
 		case n == "AccStatusChange": // acst_unchanged$0 acst_frozen$10 acst_deleted$11
 			e := &c08Desc{K: "struct"}
 			return &c08Desc{K: "sum", Alts: []c08Alt{{1, 0, e}, {2, 2, e}, {2, 3, e}}}
@@ -991,6 +993,8 @@ var c08TlbTypes = []reflect.Type{
 	reflect.TypeOf(tlb.BlockCreateStats{}), reflect.TypeOf(tlb.ShardFees{}), reflect.TypeOf(tlb.OutMsgQueueInfo{}), reflect.TypeOf(tlb.InMsg{}),
 	reflect.TypeOf(tlb.AccountBlock{}), reflect.TypeOf(tlb.CryptoSignaturePair{}), reflect.TypeOf(tlb.TransactionDescr{}), reflect.TypeOf(tlb.HashUpdate{}),
 	reflect.TypeOf(tlb.MerkleProof[tlb.ShardStateUnsplit]{}), reflect.TypeOf(tlb.MerkleProof[tlb.ShardState]{}), reflect.TypeOf(tlb.AllShardsInfo{}),
+	reflect.TypeOf(tlb.DNSRecord{}), reflect.TypeOf(tlb.DNSText("")), reflect.TypeOf(tlb.DNSRecordSet{}), reflect.TypeOf(tlb.SignedCoins(0)),
+	reflect.TypeOf(tlb.ChunkedData{}), reflect.TypeOf(tlb.AddressWithWorkchain{}),
 }
 
 // a cell tree as data
@@ -1100,7 +1104,31 @@ func c08BitsOf(v uint64, w int) []bool {
 }
 
 // descriptor-guided generation of a (mostly) valid encoding
+// generation can be steered: a choice node of the descriptor (maybe / either / eref / mref / peek /
+// refrawopt / sum) listed in c08Forced takes that branch; for a sum the value len(Alts) means a tag
+// that matches no alternative, followed by the fields of a random alternative.
+var c08Forced map[*c08Desc]int
+
+// field boundaries of the tree being generated (cell, number of bits before the field)
+type c08Mark struct {
+	node *c08Tree
+	pos  int
+}
+
+var c08Marks []c08Mark
+var c08MarkOn bool
+
+func c08Choose(r *prng.R, d *c08Desc, n int) int {
+	if v, ok := c08Forced[d]; ok {
+		return v
+	}
+	return r.Intn(n)
+}
+
 func c08GenValid(r *prng.R, d *c08Desc, t *c08Tree, depth int) {
+	if c08MarkOn {
+		c08Marks = append(c08Marks, c08Mark{t, len(t.Bits)})
+	}
 	sub := func(x *c08Desc) *c08Tree {
 		n := &c08Tree{}
 		c08GenValid(r, x, n, depth+1)
@@ -1131,14 +1159,14 @@ func c08GenValid(r *prng.R, d *c08Desc, t *c08Tree, depth int) {
 	case "magic":
 		t.Bits = append(t.Bits, c08BitsOf(d.Val, d.W)...)
 	case "maybe":
-		if r.Bool() {
+		if c08Choose(r, d, 2) == 1 {
 			t.Bits = append(t.Bits, true)
 			c08GenValid(r, d.Sub[0], t, depth)
 		} else {
 			t.Bits = append(t.Bits, false)
 		}
 	case "either":
-		if r.Bool() {
+		if c08Choose(r, d, 2) == 1 {
 			t.Bits = append(t.Bits, true)
 			c08GenValid(r, d.Sub[1], t, depth)
 		} else {
@@ -1146,7 +1174,7 @@ func c08GenValid(r *prng.R, d *c08Desc, t *c08Tree, depth int) {
 			c08GenValid(r, d.Sub[0], t, depth)
 		}
 	case "eref":
-		if r.Bool() {
+		if c08Choose(r, d, 2) == 1 {
 			t.Bits = append(t.Bits, true)
 			sub(d.Sub[0])
 		} else {
@@ -1156,7 +1184,7 @@ func c08GenValid(r *prng.R, d *c08Desc, t *c08Tree, depth int) {
 	case "ref", "refraw":
 		sub(d.Sub[0])
 	case "refrawopt":
-		if len(t.Refs) < 4 && r.Chance(85) {
+		if _, forced := c08Forced[d]; len(t.Refs) < 4 && ((forced && c08Forced[d] == 1) || (!forced && r.Chance(85))) {
 			sub(d.Sub[0])
 		}
 	case "hashed", "nolib":
@@ -1168,7 +1196,7 @@ func c08GenValid(r *prng.R, d *c08Desc, t *c08Tree, depth int) {
 	case "peek":
 		// generate the chosen continuation, then make the field that selects it agree
 		p0 := len(t.Bits)
-		b := r.Bool()
+		b := c08Choose(r, d, 2) == 1
 		if b {
 			c08GenValid(r, d.Sub[1], t, depth)
 		} else {
@@ -1186,7 +1214,7 @@ func c08GenValid(r *prng.R, d *c08Desc, t *c08Tree, depth int) {
 			copy(t.Bits[p0+d.W:], c08BitsOf(v, d.Len))
 		}
 	case "mref":
-		if r.Bool() {
+		if c08Choose(r, d, 2) == 1 {
 			t.Bits = append(t.Bits, true)
 			sub(d.Sub[0])
 		} else {
@@ -1198,7 +1226,34 @@ func c08GenValid(r *prng.R, d *c08Desc, t *c08Tree, depth int) {
 		}
 	case "sum":
 		if len(d.Alts) > 0 {
-			a := d.Alts[r.Intn(len(d.Alts))]
+			i := c08Choose(r, d, len(d.Alts))
+			if i >= len(d.Alts) {
+				// a tag no alternative accepts
+				a := d.Alts[r.Intn(len(d.Alts))]
+				w := 0
+				for _, x := range d.Alts {
+					if x.Len > w {
+						w = x.Len
+					}
+				}
+				var tag []bool
+				for try := 0; try < 64; try++ {
+					tag = c08RandBits(r, w)
+					hit := false
+					for _, x := range d.Alts {
+						if reflect.DeepEqual(tag[:x.Len], c08BitsOf(x.Val, x.Len)) {
+							hit = true
+						}
+					}
+					if !hit {
+						break
+					}
+				}
+				t.Bits = append(t.Bits, tag...)
+				c08GenValid(r, a.T, t, depth)
+				break
+			}
+			a := d.Alts[i]
 			t.Bits = append(t.Bits, c08BitsOf(a.Val, a.Len)...)
 			c08GenValid(r, a.T, t, depth)
 		}
@@ -1883,7 +1938,9 @@ func c08Explore(c *Ctx, kind string, in sx.V, typeName string, weight int, extra
 	switch {
 	case strings.Contains(s, "'panic"):
 		c.Fail(kind, in, "tlb-panic-"+typeName, "decoding into "+typeName+" panicked")
-	case strings.Contains(s, "'crash"), strings.Contains(s, "'timeout"):
+	case strings.Contains(s, "'timeout"):
+		c.Fail(kind, in, "tlb-hang-"+typeName, "decoding into "+typeName+" does not return: "+s)
+	case strings.Contains(s, "'crash"):
 		c.Fail(kind, in, "tlb-alloc-"+typeName, "decoding into "+typeName+" exhausted memory or time: "+s)
 	case out.K == sx.KL && len(out.List) == 4 && out.List[0].IsA("usepanic"):
 		use, unsound := string(out.List[2].Bytes), string(out.List[3].Bytes)
@@ -2147,6 +2204,187 @@ func genC08Directed(c *Ctx) {
 	}
 }
 
+// every (choice node, branch) of a descriptor, breadth first, each with the choices that lead to it
+func c08ChoicePaths(root *c08Desc, limit int) []map[*c08Desc]int {
+	type item struct {
+		d    *c08Desc
+		path map[*c08Desc]int
+	}
+	var out []map[*c08Desc]int
+	seen := map[*c08Desc]bool{}
+	queue := []item{{root, map[*c08Desc]int{}}}
+	for len(queue) > 0 && len(out) < limit {
+		it := queue[0]
+		queue = queue[1:]
+		d := it.d
+		if d == nil || seen[d] {
+			continue
+		}
+		seen[d] = true
+		with := func(v int) map[*c08Desc]int {
+			m := make(map[*c08Desc]int, len(it.path)+1)
+			for k, x := range it.path {
+				m[k] = x
+			}
+			m[d] = v
+			return m
+		}
+		switch d.K {
+		case "maybe", "mref", "refrawopt":
+			out = append(out, with(0), with(1))
+			queue = append(queue, item{d.Sub[0], with(1)})
+		case "either", "peek":
+			out = append(out, with(0), with(1))
+			queue = append(queue, item{d.Sub[0], with(0)}, item{d.Sub[1], with(1)})
+		case "eref":
+			out = append(out, with(0), with(1))
+			queue = append(queue, item{d.Sub[0], with(1)})
+		case "sum":
+			for i := range d.Alts {
+				out = append(out, with(i))
+				queue = append(queue, item{d.Alts[i].T, with(i)})
+			}
+			if len(d.Alts) > 0 {
+				out = append(out, with(len(d.Alts)))
+			}
+		default:
+			for _, x := range d.Sub {
+				queue = append(queue, item{x, it.path})
+			}
+		}
+	}
+	if len(out) > limit {
+		out = out[:limit]
+	}
+	return out
+}
+
+// generation grammars of the registered types whose hand-written decoders have no descriptor in the
+// model (guarded Go oracles only): they say how a well-formed value of every constructor looks, and
+// also name the ill-formed continuations worth trying (unknown protocol / capability, flags 3)
+func c08Grammar(t reflect.Type) *c08Desc {
+	st := func(sub ...*c08Desc) *c08Desc { return &c08Desc{K: "struct", Sub: sub} }
+	bits := func(n int) *c08Desc { return &c08Desc{K: "bits", W: n} }
+	alt := func(l int, v uint64, d *c08Desc) c08Alt { return c08Alt{Len: l, Val: v, T: d} }
+	sum := func(a ...c08Alt) *c08Desc { return &c08Desc{K: "sum", Alts: a} }
+	ftext := &c08Desc{K: "ftext"}
+	ref := func(d *c08Desc) *c08Desc { return &c08Desc{K: "ref", Sub: []*c08Desc{d}} }
+	dnsText := func() *c08Desc {
+		return sum(alt(8, 0, st()), alt(8, 1, ftext), alt(8, 2, st(ftext, ref(ftext))), alt(8, 3, st(ftext, ref(st(ftext, ref(ftext))))),
+			alt(8, 2, ftext), alt(8, 255, st(ftext, ref(ftext))))
+	}
+	var list func(item func() *c08Desc, n int) *c08Desc
+	list = func(item func() *c08Desc, n int) *c08Desc {
+		if n == 0 {
+			return &c08Desc{K: "magic", W: 1, Val: 0}
+		}
+		return &c08Desc{K: "maybe", Sub: []*c08Desc{st(item(), list(item, n-1))}}
+	}
+	flagged := func(item func() *c08Desc) *c08Desc {
+		return sum(alt(8, 0, st()), alt(8, 1, list(item, 3)), alt(8, 2, list(item, 3)), alt(8, 3, list(item, 1)))
+	}
+	proto := func() *c08Desc { return sum(alt(16, 0x4854, st()), alt(16, 0x1234, st())) }
+	capability := func() *c08Desc {
+		return sum(alt(16, 0x5371, st()), alt(16, 0x71f4, st()), alt(16, 0x2177, st()), alt(8, 0xff, dnsText()), alt(16, 0x1234, st()))
+	}
+	dnsRecord := func() *c08Desc {
+		return sum(alt(16, 0x1eda, dnsText()), alt(16, 0xba93, &c08Desc{K: "addr"}), alt(16, 0xad01, st(bits(256), flagged(proto))),
+			alt(16, 0x9fd3, st(&c08Desc{K: "addr"}, flagged(capability))), alt(16, 0x7473, bits(256)), alt(16, 0x0001, bits(40)))
+	}
+	switch c08ShortName(t) {
+	case "DNSRecord":
+		return dnsRecord()
+	case "DNSText":
+		return dnsText()
+	case "DNSRecordSet":
+		return &c08Desc{K: "hm", W: 256, Val: 64, Sub: []*c08Desc{ref(dnsRecord())}}
+	case "SignedCoins":
+		var alts []c08Alt
+		for n := 0; n <= 9; n++ {
+			alts = append(alts, alt(4, uint64(n), bits(8*n)))
+		}
+		return st(&c08Desc{K: "bool"}, sum(alts...))
+	case "ChunkedData":
+		return &c08Desc{K: "maybe", Sub: []*c08Desc{ref(&c08Desc{K: "hm", W: 32, Val: 8, Sub: []*c08Desc{ref(&c08Desc{K: "snake"})}})}}
+	}
+	return nil
+}
+
+// every constructor, then what follows it damaged: for every (choice node, branch) of the descriptor or
+// grammar a tree that takes that branch (and the branches leading to it), then: references cut to
+// 0..n-1 on the cells of the first levels, cells truncated at field boundaries and one bit after them
+func genC08Constructors(c *Ctx, r *prng.R, g *c08Desc, heavy bool, run func(tree *c08Tree, class string), name string) {
+	limit, nodeCap, truncCap := c.Scale(24, 160), 10, c.Scale(24, 80)
+	if heavy {
+		limit, nodeCap, truncCap = c.Scale(4, 24), 3, c.Scale(2, 10)
+	}
+	for _, path := range c08ChoicePaths(g, limit) {
+		c08Forced, c08MarkOn, c08Marks = path, true, nil
+		base := &c08Tree{}
+		c08GenValid(r, g, base, 0)
+		marks := c08Marks
+		c08Forced, c08MarkOn, c08Marks = nil, false, nil
+		if !base.fits() {
+			continue
+		}
+		run(base, name+"|ctor")
+		index := map[*c08Tree]int{}
+		var nodes []*c08Tree
+		base.all(&nodes)
+		for i, x := range nodes {
+			index[x] = i
+		}
+		// missing references
+		var level []*c08Tree
+		level = append(level, base)
+		level = append(level, base.Refs...)
+		if !heavy {
+			for _, x := range base.Refs {
+				level = append(level, x.Refs...)
+			}
+		}
+		if len(level) > nodeCap {
+			level = level[:nodeCap]
+		}
+		for _, x := range level {
+			for k := 0; k < len(x.Refs); k++ {
+				m := base.clone()
+				var ns []*c08Tree
+				m.all(&ns)
+				ns[index[x]].Refs = ns[index[x]].Refs[:k]
+				run(m, name+"|ctor-refs")
+			}
+		}
+		// truncation at field boundaries
+		type cut struct{ node, pos int }
+		done := map[cut]bool{}
+		var cuts []cut
+		for _, mk := range marks {
+			i, ok := index[mk.node]
+			if !ok {
+				continue
+			}
+			for _, p := range []int{mk.pos, mk.pos + 1} {
+				if p < len(mk.node.Bits) && !done[cut{i, p}] {
+					done[cut{i, p}] = true
+					cuts = append(cuts, cut{i, p})
+				}
+			}
+		}
+		for len(cuts) > truncCap {
+			i := r.Intn(len(cuts))
+			cuts = append(cuts[:i], cuts[i+1:]...)
+		}
+		for _, ct := range cuts {
+			m := base.clone()
+			var ns []*c08Tree
+			m.all(&ns)
+			ns[ct.node].Bits = ns[ct.node].Bits[:ct.pos]
+			run(m, name+"|ctor-trunc")
+		}
+	}
+}
+
 func genC08TLB(c *Ctx) {
 	for ti, t := range c08TlbTypes {
 		r := c.R.Fork(uint64(5000 + ti))
@@ -2202,11 +2440,18 @@ func genC08TLB(c *Ctx) {
 		if heavy {
 			n = c.Scale(2, 12)
 		}
+		g := d
+		if g == nil {
+			g = c08Grammar(t)
+		}
+		if g != nil {
+			genC08Constructors(c, r, g, heavy, run, name)
+		}
 		for k := 0; k < n; k++ {
 			var base *c08Tree
-			if d != nil {
+			if g != nil && (d != nil || k%4 != 3) {
 				base = &c08Tree{}
-				c08GenValid(r, d, base, 0)
+				c08GenValid(r, g, base, 0)
 			} else {
 				base = c08RandTree(r, 0)
 			}
@@ -2877,6 +3122,9 @@ func genC08Resolver(c *Ctx) {
 		// (plain structs of fixed-width kinds) and run under the hang / panic oracle for the rest
 		plain := !d.hasKind("sum", "maybe", "either", "eref", "ref", "mref", "refraw", "var", "unary", "magic", "any", "cell", "addr",
 			"grams", "snake", "bytes", "text", "ftext", "hm", "hmaug", "bintree", "vmstack", "vmvalue", "vmtuple", "cslice", "fail", "rawcell", "hashed", "peek", "ostruct", "nolib", "refrawopt")
+		if _, hand := reflect.PointerTo(t).MethodByName("UnmarshalTLB"); hand {
+			plain = false // its own decoder reads the resolved cell directly, without nested decode() calls
+		}
 		run := func(tree *c08Tree, pairs [][2]*c08Tree, class string) {
 			if !tree.fits() || hung[name] >= 2 || len(hung) >= 3 {
 				return
